@@ -220,6 +220,17 @@ func c18Scens(tier string) []e1Scen {
 			out = append(out, e1Scen{Prop: "C18", Cfg: cfg, Alpha: word, Mode: "fault", Len: 4 * (nrot + cfg.SegCount + 4), FaultAt: fa, Name: fmt.Sprintf("rotation-fault-%d", fa)})
 		}
 	}
+	// configurations at and below the minimum SegmentCount of the Low-Latency variant, given explicitly and through the
+	// zero value of Variant: Start may refuse 3..6; if it accepts, the retention bound is the SegmentCount it was given
+	for n := 3; n <= 8; n++ {
+		for _, defaults := range []bool{false, true} {
+			cfg := mcfg("ll", n%2 == 0, n, "h264", "aac44")
+			cfg.SegMinMS, cfg.PartMS = 1000, 200
+			cfg.Defaults, cfg.MayRefuse = defaults, n < 7
+			word := []sym{{T: 0, D: "q", K: "R"}, {T: 1, D: "c", N: 11}, {T: 0, D: "q", K: "n"}, {T: 0, D: "q", K: "n"}, {T: 1, D: "c", N: 11}, {T: 0, D: "q", K: "n"}}
+			out = append(out, e1Scen{Prop: "C18", Cfg: cfg, Alpha: word, Mode: "long", Len: 6 * (n + 12), Name: "retention-small-window"})
+		}
+	}
 	// the same failed rotation reached through the input alone: random-access units whose parameter sets cannot be
 	// parsed make the Write that has to build the init segment from them fail inside the rotation
 	for _, codec := range []string{"h264", "h265", "av1"} {
